@@ -3,13 +3,15 @@
    1213  the cue settings WebVTTReader keeps from a timing line (model/VttSettings.v) and the line the writer prints for them
    1214  tts:textAlign / tts:displayAlign at string level (model/DfxpAlign.v): what the reader makes of two attribute values
    1215  the names the writer prints for the alignment members, and the two strings written for an alignment
+   1216  tts:textAlign lookup over an element, its parents and the region (model/DfxpStyleAlign.v): the element's alignment
    1320  DFXPWriter with inline positioning: the layout each div / p / span carries inline (dfxp_choice over the
          transformed set)
    1321  the TEXT of the cue settings WebVTTWriter._convert_positioning returns (model/VttText.v)
+   1322  the margins SAMIWriter prints (model/Pos13Doc.v): set-level block, then one block per language
    1820  to_xml_attribute of Point / Stretch / Padding and from_xml_attribute of the result *)
 From Coq Require Import List ZArith QArith Bool.
 From PV Require Import lib.Sx lib.Str lib.Result.
-From PV Require Import model.Geometry model.Positioning model.DfxpTree model.DfxpClean model.TimeRead model.VttSettings model.DfxpAlign model.VttText spec.SpecGeom spec.SpecPos spec.SpecPos7.
+From PV Require Import model.Geometry model.Positioning model.DfxpTree model.DfxpClean model.TimeRead model.VttSettings model.DfxpAlign model.DfxpStyleAlign model.VttText model.Pos13Doc spec.SpecGeom spec.SpecPos spec.SpecPos7.
 From PV Require Import extract.OrCommon extract.OrGeom extract.OrPos.
 Import ListNotations.
 Open Scope Z_scope.
@@ -29,6 +31,12 @@ Definition of_xp (p : xp) : sx := SL [of_opt of_rid (xp_region p); of_list of_xi
 Definition of_xdiv (d : xdiv) : sx := SL [of_opt of_rid (xd_region d); of_list of_xp (xd_ps d)].
 Definition of_xdoc (d : xdoc) : sx :=
   SL [of_list (fun kv => SL [of_rid (fst kv); of_attrs (snd kv)]) (x_regions d); of_list of_xdiv (x_divs d)].
+
+Definition sx_src (x : sx) : option asource :=
+  match x with
+  | SL [o; st] => match sx_opt sx_str o, sx_listof (sx_opt sx_str) st with
+                  | Some o, Some st => Some (mkSrc o st) | _, _ => None end
+  | _ => None end.
 
 Definition req7 (code : Z) (arg : sx) : sx :=
   match code, arg with
@@ -54,6 +62,10 @@ Definition req7 (code : Z) (arg : sx) : sx :=
                       of_list SS (map valign_name [VTop; VCenter; VBottom]);
                       of_opt SS (fst (written_alignment a)); of_opt SS (snd (written_alignment a))]
       | None => bad end
+  | 1216, SL [e; ps; rt; rd] =>
+      match sx_opt sx_src e, sx_listof sx_src ps, sx_src rt, sx_src rd with
+      | Some e, Some ps, Some rt, Some rd => of_opt of_alignment (element_alignment e ps rt rd)
+      | _, _, _, _ => bad end
   | 1320, SL [c; s] =>
       match sx_cfg c, sx_nset s with
       | Some c, Some s => of_result (fun s' => of_list (of_opt of_layout) (inline_layouts s')) (dfxp_transform_inline c s)
@@ -61,6 +73,11 @@ Definition req7 (code : Z) (arg : sx) : sx :=
   | 1321, SL [c; l] =>
       match sx_cfg c, sx_opt sx_layout l with
       | Some c, Some l => of_result (fun o => SS (vtt_settings_text o)) (vtt_convert_positioning c l) | _, _ => bad end
+  | 1322, SL [c; s] =>
+      match sx_cfg c, sx_nset s with
+      | Some c, Some s =>
+          of_result (fun s' => of_list (of_list (fun kt => SL [SS (fst kt); SS (snd kt)])) (sami_doc_margins s')) (sami_transform c s)
+      | _, _ => bad end
   | 1820, SL [SI k; v] =>
       match k with
       | 0 => match sx_point v with
@@ -75,6 +92,6 @@ Definition req7 (code : Z) (arg : sx) : sx :=
 
 Definition dispatch (code : Z) (arg : sx) : option sx :=
   match code with
-  | 1211 | 1213 | 1214 | 1215 | 1320 | 1321 | 1820 => Some (req7 code arg)
+  | 1211 | 1213 | 1214 | 1215 | 1216 | 1320 | 1321 | 1322 | 1820 => Some (req7 code arg)
   | _ => None
   end.
